@@ -110,6 +110,9 @@ type c16HandoffCase struct {
 	Cfg    c16Cfg `json:"cfg"`
 	Batch  int    `json:"tasks_per_batch"`
 	Waiter string `json:"waiter"` // contributor: its own task is in the handed-off batch; bystander: added nothing
+	// chunk only: "" = every task 1 byte (limit = tasks per batch); "zero-contrib" = A's
+	// tasks are 0 bytes and B's last task alone carries the whole limit
+	Sizes string `json:"sizes,omitempty"`
 }
 
 // c16RunHandoff stages:
@@ -131,6 +134,14 @@ func c16RunHandoff(m *vk.M, idx int, hc c16HandoffCase) (nontrivial, ok bool) {
 		t := c16Task{A: a, S: sq}
 		if hc.Cfg.Kind == "chunk" {
 			t.Size = 1
+			if hc.Sizes == "zero-contrib" {
+				switch {
+				case a == 1:
+					t.Size = 0
+				case sq == hc.Batch+1:
+					t.Size = hc.Cfg.N
+				}
+			}
 		}
 		return t
 	}
@@ -271,6 +282,18 @@ func TestVerifC16Handoff(t *testing.T) {
 						return
 					}
 					m.Case(vk.Digest(hc), nt)
+					if kind == "chunk" && batch > 1 {
+						idx++
+						if !m.Only(idx) {
+							continue
+						}
+						hc.Sizes = "zero-contrib"
+						if nt, ok = c16RunHandoff(m, idx, hc); !ok {
+							m.Note("stopped after case %d", idx)
+							return
+						}
+						m.Case(vk.Digest(hc), nt)
+					}
 				}
 			}
 		}
@@ -334,7 +357,8 @@ func c16TickLiveness(m *vk.M, desc string, s *c16Sys, tasks []c16Task) (held boo
 
 type c16IdleCase struct {
 	Cfg     c16Cfg `json:"cfg"`
-	Variant string `json:"variant"` // tick-first | add-first | racing | plain
+	Variant string `json:"variant"` // tick-first | add-first | racing | plain | after-commanded
+	Size    int    `json:"size"`    // chunk: bytes per task (0 = never reaches the limit by itself)
 	Spin    int    `json:"spin,omitempty"`
 }
 
@@ -349,9 +373,15 @@ func c16RunIdle(m *vk.M, idx int, ic c16IdleCase) (class string, ok bool) {
 	mk := func(sq int) c16Task {
 		t := c16Task{A: 0, S: sq}
 		if ic.Cfg.Kind == "chunk" {
-			t.Size = 1
+			t.Size = ic.Size
 		}
 		return t
+	}
+	// does every single Add reach the threshold (hand-off through the commander)?
+	everyAdd := ic.Cfg.N == 1
+	if ic.Cfg.Kind == "chunk" {
+		everyAdd = ic.Size >= ic.Cfg.N
+		m.Count(fmt.Sprintf("idle_chunk_size_%s", map[bool]string{true: "0", false: map[bool]string{true: "ge_limit", false: "below_limit"}[everyAdd]}[ic.Size == 0]), 1)
 	}
 	var mu sync.Mutex
 	var adds []c16Add
@@ -376,7 +406,7 @@ func c16RunIdle(m *vk.M, idx int, ic c16IdleCase) (class string, ok bool) {
 		return "", m.ViolCount() > v0 // a violation: next scenario; undecided: stop (goroutines of an earlier stall are in the way)
 	}
 	// a commanded batch makes the flusher skip one tick: take it out of the way
-	if ic.Cfg.N == 1 {
+	if everyAdd {
 		s.tks.offer()
 	}
 	timex.VerifAdvance((idleRound + 1) * c16Interval)
@@ -528,6 +558,13 @@ func TestVerifC16Idle(t *testing.T) {
 		if ic.Variant == "after-commanded" && ic.Cfg.N == 1 {
 			ic.Cfg.N = 2
 		}
+		if ic.Cfg.Kind == "chunk" {
+			// boundary sizes: 0 (never a threshold), 1, limit, limit+1
+			ic.Size = []int{0, 0, 1, ic.Cfg.N, ic.Cfg.N + 1}[r.Intn(5)]
+			if ic.Variant == "after-commanded" {
+				ic.Size = 1 // N one-byte tasks fill the batch exactly
+			}
+		}
 		if ic.Variant == "racing" {
 			ic.Spin = r.Intn(400)
 		}
@@ -546,7 +583,7 @@ func TestVerifC16Idle(t *testing.T) {
 		if class != "" {
 			quits++
 		}
-		m.Case(vk.Digest(ic.Cfg, ic.Variant, class), class != "")
+		m.Case(vk.Digest(ic.Cfg, ic.Size, ic.Variant, class), class != "")
 		if idx%100 == 0 {
 			m.Progress()
 		}
